@@ -97,6 +97,9 @@ func (s *TW) Ops(w *ksim.World) []ksim.Op {
 								if ak == 1 && b.Equal(sdkmath.OneInt()) && ai > 0 {
 									continue // "all" == "1": offered once
 								}
+								if ak == 2 && route != RAlias && route != RClient {
+									continue // the literal sentinel is only meaningful in a raw MsgSendPacket (MsgTransfer resolves it: amount kind 1)
+								}
 								for _, rc := range orInts(s.Receivers, RcvUser0) {
 									for _, to := range orInts(s.Timeouts, ToFar) {
 										if to == ToNextTime && routeV2(route) {
@@ -250,6 +253,11 @@ func (s *TW) planSend(w *ksim.World, op ksim.Op) sendPlan {
 	amt := sdkmath.OneInt()
 	if ak == 1 {
 		amt = s.bal(w, src, sender, d.Bank)
+	}
+	if ak == 2 {
+		// MsgTransfer's "entire balance" sentinel (2^256-1) written literally into the packet data of a raw send:
+		// nobody holds that much, the send must be refused
+		amt = transfertypes.UnboundedSpendLimit()
 	}
 	srcID, dstID := s.idOn(p, src), s.idOn(p, dst)
 	pl := sendPlan{Signer: signer, Sender: sender, Coin: sdk.NewCoin(d.Bank, amt), SrcID: srcID, DstID: dstID}
